@@ -736,9 +736,78 @@ def r5_codes(program, rep, folder, fn, fl, cfg, inst):
         raise AnalysisError("send_scp_burst: the reply header unpack call")
     ok6 = off == struct.calcsize("<2x8B") and isinstance(fmt, str) and \
         fmt.replace(" ", "") == "<2H"
+    # the receive buffer takes the largest reply whole: 2 bytes of padding,
+    # the SDP header, cmd_rc and seq, and buffer_size bytes of data
+    recvs = [c for c in ast.walk(fn) if isinstance(c, ast.Call) and
+             isinstance(c.func, ast.Attribute) and c.func.attr == "recv" and
+             len(c.args) == 1]
+    if len(recvs) != 1:
+        raise AnalysisError("send_scp_burst: one recv() expected")
+    views = owner_views(T, recvs[0])
+    if len(views) != 1:
+        raise AnalysisError("send_scp_burst: recv() in a helper called "
+                            "from several places")
+    rt = plain(views[0].term(recvs[0].args[0],
+                             views[0].cfg.node_containing(recvs[0])))
+    # int(2 ** ceil(log(M, 2))) >= M
+    M = None
+    m_ = match(("call", ("global", "int"), (("binop", "Pow", ("const", 2), (
+        "call", ("attr", ("global", "math"), "ceil"), ((
+            "call", ("attr", ("global", "math"), "log"),
+            (V("m"), ("const", 2)), ()),), ())),), ()), rt)
+    if m_ is not None:
+        M = m_["m"]
+    else:
+        M = rt          # a plain length
+    BUF = ("param", [a.arg for a in fn.args.args][1])
+    need = 2 + struct.calcsize("<2x8B") - 2 + 4
+    slack = None
+    try:
+        from ..terms import reify
+        flr = Flow(fn, consts=None)
+        pm = flr.sym(_wp(reify(M)), flr.cfg.entry)
+        pb = flr.sym(_wp(reify(BUF)), flr.cfg.entry)
+        d = pm - pb
+        vals = {}
+        for a_ in d.atoms():
+            v = folder.eval(ast.parse(str(a_), mode="eval").body, menv,
+                            fn._module)
+            vals[a_] = v
+        if all(isinstance(v, int) for v in vals.values()):
+            slack = d.evaluate(vals) if hasattr(d, "evaluate") else None
+            if slack is None:
+                tot = 0
+                for mono, c_ in d.t.items():
+                    x = c_
+                    for a_ in mono:
+                        x *= vals[a_]
+                    tot += x
+                slack = tot
+    except (AnalysisError, SyntaxError, KeyError):
+        slack = None
+    if slack is None:
+        raise AnalysisError("send_scp_burst: the receive length %s is not "
+                            "buffer_size plus a constant" % show(rt)[:80])
+    rep.check(slack >= need, "C06-R6", inst, "the receive buffer takes a "
+              "reply carrying buffer_size bytes of data whole (data + %d "
+              "bytes of padding and headers; it has room for data + %d)" % (
+                  need, slack), construct="receive length", node=recvs[0],
+              fail="recv() is given room for buffer_size + %d bytes, but a "
+                   "reply with buffer_size bytes of data is buffer_size + "
+                   "%d bytes long: for buffer sizes just below a power of "
+                   "two the reply is truncated and the read fails" % (
+                       slack, need))
     rep.check(ok6, "C06-R6", inst, "cmd_rc and seq are read with '<2H' at "
               "byte 10 = size of the SDP header format (pad + 8 bytes)",
               construct="reply offset", node=fn)
+
+
+def _wp(e):
+    for n in ast.walk(e):
+        for c in ast.iter_child_nodes(n):
+            c._parent = n
+    ast.fix_missing_locations(e)
+    return e
 
 
 def _own(node, fn):
